@@ -78,6 +78,7 @@ struct Stats {
     calls_unsup: usize,
     host_calls: usize,
     with_state: usize,
+    escalated: usize,
     distinct: std::collections::HashSet<String>,
 }
 
@@ -146,6 +147,44 @@ fn judge(cases: Vec<Case>, prop: &str, stats: &mut Stats) {
             out::oracle(&c.name, true, "", "");
             continue;
         }
+        let (mut oi, mut oo) = (oi.clone(), oo.clone());
+        if oi == oo {
+            // the search the brief asks for: when the model no longer predicts this output (or the
+            // output is not the elision of the input), look harder for a behavioural difference on
+            // this very pair of binaries: many more scripts
+            let mut probes = vec![];
+            if let Some((rq, _)) = &c.corr {
+                probes.push(rq.clone());
+            }
+            if let Some(t) = &c.tie {
+                probes.push(t.clone());
+            }
+            let pa = model::ask(&probes);
+            let suspicious = c.corr.as_ref().map(|(_, ob)| &pa[0] != ob).unwrap_or(false) || c.tie.as_ref().map(|_| pa[pa.len() - 1] != "elide-ok").unwrap_or(false);
+            if suspicious {
+                stats.escalated += 1;
+                let reseed = |r: &str, k: u64| -> String {
+                    let mut f: Vec<String> = r.splitn(5, ' ').map(|x| x.to_string()).collect();
+                    f[1] = ((f[1].parse::<u64>().unwrap() + k * 7919) % 1000000007).to_string();
+                    f[2] = "3".into();
+                    f.join(" ")
+                };
+                let mut rq = vec![];
+                for k in 1..=24u64 {
+                    rq.push(reseed(&c.req_in, k));
+                    rq.push(reseed(&c.req_out, k));
+                }
+                let an = model::ask(&rq);
+                for k in 0..24 {
+                    if an[2 * k] != an[2 * k + 1] {
+                        oi = an[2 * k].clone();
+                        oo = an[2 * k + 1].clone();
+                        break;
+                    }
+                }
+            }
+        }
+        let (oi, oo) = (&oi, &oo);
         if oi == oo {
             out::oracle(&c.name, true, "", "");
         } else {
@@ -219,5 +258,6 @@ pub fn main(seed: u64, tier: &str, only: Option<&str>) {
     out::stat("exec.calls_hit_unsupported_operator", stats.calls_unsup);
     out::stat("exec.host_calls_traced", stats.host_calls);
     out::stat("exec.modules_with_exported_state", stats.with_state);
+    out::stat("exec.cases_escalated_after_model_mismatch", stats.escalated);
     out::stat("distinct_nontrivial", 0);
 }
